@@ -23,6 +23,8 @@ pub struct HKey<K: EnrKey> {
     /// 0 = sign normally; 1..=3 = keep signing (the built-in signers are randomised) until the
     /// signature has a zero byte at offset 0 / 32 / 63: valid signatures with a rare byte pattern
     pub shape: std::sync::atomic::AtomicU8,
+    /// answer with a signature that does not verify (a signer wired to the wrong secret)
+    pub bad: AtomicBool,
 }
 
 impl<K: EnrKey> HKey<K> {
@@ -32,6 +34,7 @@ impl<K: EnrKey> HKey<K> {
             log: Mutex::new(Vec::new()),
             fail: AtomicBool::new(false),
             shape: std::sync::atomic::AtomicU8::new(0),
+            bad: AtomicBool::new(false),
         }
     }
     pub fn take_log(&self) -> Vec<(Vec<u8>, Option<Vec<u8>>)> {
@@ -63,6 +66,13 @@ impl<K: EnrKey> EnrKey for HKey<K> {
                 match &r {
                     Ok(sg) if sg.len() > off && sg[off] != 0 => r = self.inner.sign_v4(msg),
                     _ => break,
+                }
+            }
+        }
+        if self.bad.load(Ordering::SeqCst) {
+            if let Ok(sg) = r.as_mut() {
+                if let Some(l) = sg.last_mut() {
+                    *l ^= 0x55;
                 }
             }
         }
